@@ -79,25 +79,65 @@ class StructDS(Dataset):
             return np.full((2, 2), float(i), dtype=np.float32), i
         if self.kind == 'strings':
             return torch.full((2,), float(i)), 'sample-%d' % i
+        if self.kind in ('cls', 'dc', 'lens', 'npcollate'):
+            return torch.full((3,), float(i)), i % 2
         return (torch.full((5,), float(i)),)
+
+
+class CustomBatch:
+    """the SimpleCustomBatch pattern of the torch DataLoader documentation"""
+
+    def __init__(self, data):
+        tr = list(zip(*data))
+        self.inp = torch.stack(tr[0], 0)
+        self.tgt = torch.tensor(tr[1])
+
+
+def custom_collate(kind):
+    import dataclasses
+    import numpy as np
+
+    @dataclasses.dataclass
+    class DCBatch:
+        inp: torch.Tensor
+        tgt: torch.Tensor
+    if kind == 'cls':
+        return lambda b: CustomBatch(b)
+    if kind == 'dc':
+        return lambda b: DCBatch(torch.stack([x for x, _ in b]), torch.tensor([y for _, y in b]))
+    if kind == 'lens':
+        return lambda b: (torch.stack([x for x, _ in b]), [int(y) + 1 for _, y in b])
+    if kind == 'npcollate':
+        return lambda b: (np.stack([x.numpy() for x, _ in b]), np.array([y for _, y in b]))
+    return None
 
 
 def describe(b, batch_dim=True):
     """structure of a collated batch with the batch extent removed"""
     if torch.is_tensor(b):
         return ['T', list(b.shape[1:]), str(b.dtype)]
+    if type(b).__module__ == 'numpy':
+        return ['N', list(b.shape[1:]), str(b.dtype)]
+    if hasattr(b, '__dict__') and not isinstance(b, (dict, list, tuple)):
+        return [type(b).__name__, {k: describe(v) for k, v in sorted(vars(b).items())}]
+    if isinstance(b, (list, tuple)) and len(b) > 0 and all(isinstance(v, (int, float)) and not isinstance(v, bool) for v in b):
+        return ['PerSampleValues']
+    if isinstance(b, (list, tuple)) and len(b) == 0:
+        return ['PerSampleValues']
     if isinstance(b, dict):
         return {k: describe(v) for k, v in sorted(b.items())}
     if isinstance(b, (list, tuple)):
         if all(isinstance(v, (str, bytes)) for v in b):
-            return ['S']
+            return ['PerSampleValues']
         return [describe(v) for v in b]
     return type(b).__name__
 
 
 def batch_len(b):
-    if torch.is_tensor(b):
+    if torch.is_tensor(b) or type(b).__module__ == 'numpy':
         return b.shape[0]
+    if hasattr(b, '__dict__') and not isinstance(b, (dict, list, tuple)):
+        return batch_len(next(iter(vars(b).values())))
     if isinstance(b, dict):
         return batch_len(next(iter(b.values())))
     if isinstance(b, (list, tuple)):
@@ -111,7 +151,7 @@ def struct_case(c):
     """the empty batch must have the structure, trailing shapes and dtypes of a non-empty batch (compared through the loader's own collate function
     and through iteration)"""
     ds = StructDS(c['N'], c['kind'])
-    dl = DataLoader(ds, batch_size=c['bs'])
+    dl = DataLoader(ds, batch_size=c['bs'], collate_fn=custom_collate(c['kind']))
     out = {'error': None, 'bad': None, 'empties': 0}
     try:
         dpl = DPDataLoader.from_data_loader(dl, generator=torch.Generator().manual_seed(c['seed']))
@@ -171,7 +211,7 @@ def encode_tree(b):
     if isinstance(b, (list, tuple)):
         tag = 0 if isinstance(b, list) else (2 if hasattr(b, '_fields') else 1)
         # an empty plain list / tuple is the empty sequence of strings for the implementation (all() of nothing) -- same encoding on both sides
-        if all(isinstance(v, (str, bytes)) for v in b) and tag != 2:
+        if all(isinstance(v, (str, bytes, int, float, bool, complex)) for v in b) and tag != 2:      # one python value per sample
             return '(BStrs %d%%nat %d%%nat)' % (tag, len(b))
         return '(BSeq %d%%nat [%s])' % (tag, '; '.join(encode_tree(v) for v in b))
     return '(BLeaf %d%%nat)' % {int: 0, float: 1, type(None): 2}[type(b)]
